@@ -116,14 +116,18 @@ class Geometry:
                 # In the case, a fixed (scalar) depth had been provided, the base class can be
                 # utilized. Otherwise, a more involved reshape of the effective volume is
                 # required.
-                self.cached_voxel_volume = (
-                    cv2.resize(
-                        self.voxel_volume,
-                        tuple(reversed(fetched_data.shape[:2])),
-                        interpolation=cv2.INTER_AREA,  # conservative.
-                    )
-                    * scaling
-                )
+                # Area interpolation is conservative only if no axis is refined while
+                # another one is coarsened. Thus, refine first, then coarsen.
+                resized_voxel_volume = self.voxel_volume
+                refined_shape = np.maximum(self.voxel_volume.shape, fetched_shape)
+                for shape in [refined_shape, fetched_shape]:
+                    if not np.array_equal(resized_voxel_volume.shape, shape):
+                        resized_voxel_volume = cv2.resize(
+                            resized_voxel_volume,
+                            (int(shape[1]), int(shape[0])),
+                            interpolation=cv2.INTER_AREA,  # conservative.
+                        )
+                self.cached_voxel_volume = resized_voxel_volume * scaling
 
         else:
             # Scalar case. Always rescale (also when returning to the native resolution).
